@@ -57,7 +57,12 @@ def worklist_idiom(prog, A, contains_ev, sid):
             pushes = [e for e in ev if e[1].endswith("Vec::push") and e[6] in body and q & set(e[2][0])]
             ins = [e for e in ev if re.search(r"HashSet::insert$", e[1]) and e[6] in body and set_ids(e[2][0]) == sid]
             if q and pushes and ins:
-                return True
+                # the element that is newly recorded as used is the one that is queued for its own references to be followed
+                # (pushing the name just popped instead ends the walk after one hop)
+                def vals(e):
+                    return {t for t in (e[2][1] if len(e[2]) > 1 else ()) if not (isinstance(t, tuple) and t[0] in ("var", "const"))}
+                if any(vals(pu) & vals(i) for pu in pushes for i in ins):
+                    return True
     return False
 
 
